@@ -9,8 +9,8 @@ Theorem C03_unflagged_kernel_ignores_permutation :
   forall (T : Type) (of_Z : Z -> T) (of_lit : Z -> Z -> T) (of_clit : Z -> Z -> Z -> Z -> T)
          (tadd tsub tmul tdiv : T -> T -> T) (tneg : T -> T) (teqb tltb tleb : T -> T -> bool)
          (tfn : string -> list T -> T)
-         w nc nx ne elo ehi plo phi (nA : Z) (body : list stmt) (i1 i2 : inputs T) (A0 : list (val T)),
-    let ic := mk_ictx w nc nx ne elo ehi 0 plo phi in
+         w c nx ne elo ehi plo phi (nA : Z) (body : list stmt) (i1 i2 : inputs T) (A0 : list (val T)),
+    let ic := mk_ictx w c nx ne elo ehi 0 plo phi in
     check_kernel ic nA body = true ->
     inp_ok T ic i1 ->
     (forall a k, a <> id_p -> i1 a k = i2 a k) ->
@@ -20,7 +20,7 @@ Theorem C03_unflagged_kernel_ignores_permutation :
       run_kernel T of_Z of_lit of_clit tadd tsub tmul tdiv tneg teqb tltb tleb tfn i2 body A0 = Some A1.
 Proof.
   intros T of_Z of_lit of_clit tadd tsub tmul tdiv tneg teqb tltb tleb tfn
-         w nc nx ne elo ehi plo phi nA body i1 i2 A0 ic Hc Hok Hag HA.
+         w c nx ne elo ehi plo phi nA body i1 i2 A0 ic Hc Hok Hag HA.
   apply (kernel_noninterference T of_Z of_lit of_clit tadd tsub tmul tdiv tneg teqb tltb tleb tfn
            ic nA body i1 i2 A0 Hc Hok); [|exact HA].
   intros a k Hal. destruct (Pos.eq_dec a id_p) as [->|Hne]; [|apply Hag; exact Hne].
